@@ -13,6 +13,7 @@ import (
 	"os"
 	"os/exec"
 	"path/filepath"
+	"runtime"
 	"sort"
 	"testing"
 
@@ -56,6 +57,13 @@ func runChild(path string) int {
 	var req childReq
 	if err := json.Unmarshal(b, &req); err != nil {
 		return 2
+	}
+	if os.Getenv("VERIF_GC_HAMMER") != "" {
+		go func() {
+			for {
+				runtime.GC()
+			}
+		}()
 	}
 	c := &simcheck.Ctx{Tapes: simrt.NewTapeSet(req.Seed, nil), St: simcheck.NewStats(), Tier: "quick"}
 	os.Setenv("HOME", req.Home)
@@ -111,6 +119,13 @@ func (h *histRun) buildInChild(i int, op *opSpec) (res *childRes, ok bool) {
 	defer os.Remove(outPath)
 	cmd := exec.Command(os.Args[0], "-test.run", "^TestVerifChild$", "-test.timeout", "0")
 	cmd.Env = append(os.Environ(), "VERIF_CHILD="+reqPath, "VERIF_PROP=")
+	if i%2 == 0 {
+		// garbage collections all the time (GOGC=1, and a goroutine outside the simulator that
+		// collects in a loop): state that depends on an object staying alive - or on an
+		// address not being reused - while it is encoded shows
+		cmd.Env = append(cmd.Env, "GOGC=1", "VERIF_GC_HAMMER=1")
+		h.w.ctx.St.Count("child_builds_under_constant_garbage_collection", 1)
+	}
 	if err := cmd.Run(); err != nil {
 		return nil, false
 	}
